@@ -91,7 +91,7 @@ theorem classRules_spec (st : Static) (rules : List Rule) (c c' : Ctx) (rules' :
     unfold classRules at h
     by_cases hm : ruleMatches c.svcs rule c.req = true
     · simp only [hm, if_true] at h
-      by_cases ht : wantsTrust rule c.req = true
+      by_cases ht : (wantsTrust rule c.req && !(trustName c.req).isEmpty) = true
       · simp only [ht, if_true, bind, Except.bind] at h
         split at h
         · cases h
@@ -120,7 +120,7 @@ theorem classRules_ok (st : Static) (rules : List Rule) (c : Ctx) (hid : c.req.f
     unfold classRules
     by_cases hm : ruleMatches c.svcs rule c.req = true
     · simp only [hm, if_true]
-      by_cases ht : wantsTrust rule c.req = true
+      by_cases ht : (wantsTrust rule c.req && !(trustName c.req).isEmpty) = true
       · obtain ⟨c1, h1⟩ := trustUsername_ok st c (trustName c.req) hid
         simp only [ht, if_true, h1, bind, Except.bind, pure, Except.pure]
         exact ⟨_, rfl⟩
